@@ -308,10 +308,33 @@ def run(repo: Repo, chk: Check):
               "a register allocated in a scope is not (unconditionally) added to that scope's blocked set: a callee may be given the same register "
               "while the caller's value is live across the call", None, wa)
     # ordering loop: scope appended only when all its callers are already sorted
+    def _mirror_set(name):
+        """a set kept in step with the order list: created empty, and its only mutation is  S.add(x)  next to  L.append(x)"""
+        inits = [st for st in ast.walk(af) if isinstance(st, ast.Assign) and any(isinstance(t_, ast.Name) and t_.id == name for t_ in st.targets)]
+        if len(inits) != 1 or norm(inits[0].value) != "set()":
+            return False
+        muts = [c for c in ast.walk(af) if isinstance(c, ast.Call) and isinstance(c.func, ast.Attribute) and isinstance(c.func.value, ast.Name) and c.func.value.id == name
+                and c.func.attr in ("add", "update", "discard", "remove", "clear", "pop", "difference_update", "intersection_update")]
+        apps = [c for c in ast.walk(af) if isinstance(c, ast.Call) and isinstance(c.func, ast.Attribute) and norm(c.func.value) == order_list and c.func.attr in ("append", "extend", "insert")]
+        if not muts or any(c.func.attr != "add" or len(c.args) != 1 for c in muts) or len(muts) != len(apps):
+            return False
+        for c in muts:
+            blk = getattr(getattr(c, "parent", None), "parent", None)
+            st = getattr(c, "parent", None)
+            sibs = None
+            for fld in ("body", "orelse", "finalbody"):
+                if st in (getattr(blk, fld, None) or []):
+                    sibs = getattr(blk, fld)
+            if sibs is None or not any(isinstance(x, ast.Expr) and x.value in apps and x.value.func.attr == "append" and norm(x.value.args[0]) == norm(c.args[0]) for x in sibs):
+                return False
+        return True
+
     def placed_set(e, at, depth=0):
         """does *e* denote the set of the scopes ordered so far (set(L), L itself, or a local bound to that)?"""
         t_ = norm(e)
         if t_ in (order_list, f"set({order_list})", f"frozenset({order_list})"):
+            return True
+        if isinstance(e, ast.Name) and _mirror_set(e.id):
             return True
         if isinstance(e, ast.Name) and depth < 3:
             ids_ = live_ids(cfg, at)
@@ -344,6 +367,11 @@ def run(repo: Repo, chk: Check):
                 if pol and callers_ready(tst, x.id, at):
                     return True
             ds_ = rd.at(ids_[0], x.id) if ids_ else []
+            # the 'nothing found' value cannot arrive where a test on the path excludes it
+            not_none = any((norm(tst) in (f"{x.id} is None", f"not {x.id}") and not pol) or (norm(tst) in (f"{x.id} is not None", x.id) and pol)
+                           for tst, pol in (guard_atoms(cfg, ids_[0]) if ids_ else []))
+            if not_none:
+                ds_ = [d_ for d_ in ds_ if not (d_.kind == "assign" and isinstance(d_.value, ast.Constant) and d_.value.value is None)]
             if ds_ and all(d_.kind == "assign" and not d_.index and d_.value is not None and element_ready(d_.value, cfg.nodes[d_.node].ast, depth + 1) for d_ in ds_):
                 return True
             if ds_ and all(d_.kind == "for" and d_.value is not None and filtered_ready(d_.value, cfg.nodes[d_.node].ast, depth + 1) for d_ in ds_):
@@ -379,6 +407,25 @@ def run(repo: Repo, chk: Check):
     chk.rule("R04.h", "when a name is made to stand for another value's register (no copy), the accesses of that name are added to the register's "
                       "accesses and enter its lifetime: the register is not released while the new name is still read", floor=2)
     chk.guarded(r04h, repo, chk)
+    chk.rule("R04.i", "a register that a device object keeps as its id (the id was computed, 'Device(n + 1)') stays in use as long as the device is accessed "
+                      "under its name: where handle_assign keeps such a register beyond its statement it adds the accesses of the device name to the "
+                      "register's accesses", floor=1)
+    chk.guarded(r04i, repo, chk)
+    chk.rule("R04.j", "the register that receives the result of an inlined function is written wherever the function's code is spliced in; when that is "
+                      "inside another function its lifetime cannot be the line interval from 'def' to the call", floor=1)
+    chk.guarded(r04j, repo, chk)
+
+
+def _interpreted_caller_sets(af):
+    """({key class: guaranteed atoms}, None) from the abstract interpreter of sa/callersets.py, or (None, reason)"""
+    from ..callersets import caller_sets, Unsupported
+    try:
+        st = caller_sets(af)
+    except Unsupported as e:
+        return None, str(e)
+    if "func" not in st:
+        return None, "no entry for function scopes"
+    return st, None
 
 
 def rule_functions_below_modules(repo, chk, R):
@@ -387,6 +434,14 @@ def rule_functions_below_modules(repo, chk, R):
     af = ra.func("assign_registers")
     cfg, rd = fn_ctx(af)
     wa = f"{ra.path}:{af.lineno} in assign_registers"
+    state, why = _interpreted_caller_sets(af)
+    if state is not None:
+        got = sorted(state.get("func", ()))
+        chk.judge(R, "register_assignment:assign_registers:every function scope is a callee of every library module scope", "MODS" in state["func"],
+                  f"the callers of a function scope are guaranteed to contain {got or 'nothing'} (CALLS = its call sites, MODS = all library modules): expected the set of ALL "
+                  f"library modules for every function. Module-level values live for the whole program, so a function that skips one module's scope can be given a register "
+                  f"that holds that module's global", {"callers_guaranteed": got, "by": "abstract interpretation of called_from"}, wa)
+        return
     ok_mod, detail, found = False, [], False
 
     def all_modules(e, at, depth=0):
@@ -714,23 +769,65 @@ def r04h(repo, chk, R="R04.h"):
     lf = t.func("IC10Register.lifetime")
     ltxt = " ".join(norm(x) for x in ast.walk(lf) if isinstance(x, ast.BinOp))
     for st, recv, src in shares:
-        # a statement on every path to the store (or right after it) that hands recv's accesses to src
+        # a statement on every path to the store (or right after it) that hands recv's accesses to the value whose register is
+        # shared.  src may itself be a name without a register of its own (z = x after x = y): the accesses must reach the value
+        # at the END of that chain, so the site either walks a link it maintains itself, or src is known to own its register.
         attrs = set()
+        direct = []
         for c in ast.walk(fn):
-            if isinstance(c, ast.Call) and isinstance(c.func, ast.Attribute) and c.func.attr in ("extend", "append", "update") and isinstance(c.func.value, ast.Attribute) \
-                    and norm(c.func.value.value) == src and c.args:
-                a = norm(c.args[0])
-                if f"{recv}.nodes_reading" in a and f"{recv}.nodes_writing" in a:
-                    # executed whenever the store is and the shared value is a register: same guards, plus at most 'isinstance(src, IC10Register)'
-                    ids_c, ids_s = live_ids(cfg, c), live_ids(cfg, st)
-                    if not (ids_c and ids_s):
-                        continue
-                    gs = {(norm(t_), p_) for t_, p_ in guard_atoms(cfg, ids_s[0])}
-                    gc = {(norm(t_), p_) for t_, p_ in guard_atoms(cfg, ids_c[0])}
-                    extra = gc - gs
-                    if gs <= gc and all(p_ and t_.startswith(f"isinstance({src}, ") for t_, p_ in extra):
-                        attrs.add(c.func.value.attr)
+            if not (isinstance(c, ast.Call) and isinstance(c.func, ast.Attribute) and c.func.attr in ("extend", "append", "update") and isinstance(c.func.value, ast.Attribute)
+                    and c.args):
+                continue
+            a = norm(c.args[0])
+            if not (f"{recv}.nodes_reading" in a and f"{recv}.nodes_writing" in a):
+                continue
+            tgt = c.func.value.value
+            ids_c, ids_s = live_ids(cfg, c), live_ids(cfg, st)
+            if not (ids_c and ids_s):
+                continue
+            gs = {(norm(t_), p_) for t_, p_ in guard_atoms(cfg, ids_s[0])}
+            gc = {(norm(t_), p_) for t_, p_ in guard_atoms(cfg, ids_c[0])}
+            extra = gc - gs
+            if not gs <= gc:
+                continue
+            if norm(tgt) == src:
+                # executed whenever the store is and the shared value is a register: same guards, plus at most 'isinstance(src, IC10Register)'
+                if all(p_ and t_.startswith(f"isinstance({src}, ") for t_, p_ in extra):
+                    direct.append(c)
+                continue
+            if not isinstance(tgt, ast.Name):
+                continue
+            owner = tgt.id
+            ds = rd.at(ids_c[0], owner)
+            links = set()
+            start_ok = False
+            for d in ds:
+                if d.kind != "assign" or d.index or d.value is None:
+                    links.add(None)
+                elif norm(d.value) == src:
+                    start_ok = True
+                elif isinstance(d.value, ast.Attribute) and norm(d.value.value) == owner:
+                    links.add(d.value.attr)
+                else:
+                    links.add(None)
+            if not start_ok or None in links or len(links) != 1:
+                continue
+            link = next(iter(links))
+            walks = [w for w in ast.walk(fn) if isinstance(w, ast.While) and norm(w.test) == f"{owner}.{link} is not None"
+                     and any(isinstance(b, ast.Assign) and norm(b) == f"{owner} = {owner}.{link}" for b in w.body)]
+            records = [b for b in ast.walk(fn) if isinstance(b, ast.Assign) and norm(b) == f"{recv}.{link} = {owner}" and live_ids(cfg, b)
+                       and {(norm(t_), p_) for t_, p_ in guard_atoms(cfg, live_ids(cfg, b)[0])} == gc]
+            # (the exit condition of the walk is one of the guards of everything after it)
+            allowed = all((p_ and (t_.startswith(f"isinstance({src}, ") or t_ in (f"{owner} is not {recv}", f"{src} is not {recv}")))
+                          or (not p_ and t_ == f"{owner}.{link} is not None") for t_, p_ in extra)
+            if walks and records and allowed:
+                attrs.add(c.func.value.attr)
         key = f"generate_code:{fn.qual}:accesses of the new name are handed to the shared register"
+        if not attrs and direct:
+            chk.bad(R, key, f"the accesses of {recv} are added to {src} itself, but {src} may be a name that only stands for another value's register (it got there through this "
+                    f"very store): in 'x = y; z = x; c = ...; c + z' the accesses of z reach x, not y, the register of y is released after the last access of x and c takes it",
+                    None, f"{g.path}:{direct[0].lineno} in {fn.qual}")
+            continue
         if not attrs:
             chk.bad(R, key, f"{recv} is made to share the register of {src}, but the reading and writing nodes of {recv} are not added to {src}: the register is released after the "
                     f"last access of the old name ('y = x; z = ...; y + z': z takes the register and the sum is z + z)", None, f"{g.path}:{st.lineno} in {fn.qual}")
@@ -750,6 +847,15 @@ def rule_module_chain(repo, chk, R):
     af = ra.func("assign_registers")
     cfg, rd = fn_ctx(af)
     wa = f"{ra.path}:{af.lineno} in assign_registers"
+    state, why = _interpreted_caller_sets(af)
+    if state is not None and "module" in state:
+        got = sorted(state["module"])
+        key = "register_assignment:assign_registers:a module scope comes after the main scope and after the modules ordered before it"
+        chk.judge(R, key, {"MAIN", "PREV"} <= state["module"],
+                  f"the callers of a module scope are guaranteed to contain {got or 'nothing'} (MAIN = the main scope, PREV = the modules ordered before it): the modules are no "
+                  f"longer ordered among themselves, two libraries allocate their (ever-live) globals from the same registers",
+                  {"callers_guaranteed": got, "by": "abstract interpretation of called_from"}, wa)
+        return
 
     def modules_iter(e, at, depth=0):
         t = norm(e)
@@ -799,3 +905,118 @@ def rule_module_chain(repo, chk, R):
                 raise AnalysisError(f"assign_registers: what the module scopes are called from ({norm(v)[:60]}) was not understood")
     if n == 0:
         raise AnalysisError("assign_registers: the loop that enters the module scopes into called_from was not found")
+
+
+# ---------------------------------------------------------------------- R04.i
+def _lifetime_lists(repo):
+    """Attributes of IC10Register whose nodes enter the accesses that lifetime widens."""
+    t = repo.mod("types")
+    lf = t.func("IC10Register.lifetime")
+    out = set()
+    for b in ast.walk(lf):
+        if isinstance(b, ast.BinOp):
+            for a in ast.walk(b):
+                if isinstance(a, ast.Attribute) and isinstance(a.value, ast.Name) and a.value.id == "self" and a.attr.startswith("nodes_"):
+                    out.add(a.attr)
+    return out
+
+
+def r04i(repo, chk, R="R04.i"):
+    g = repo.mod("generate_code")
+    from .shared import GEN_CLASS
+    fn = g.func(f"{GEN_CLASS}.{repo.handlers()['Assign']}")
+    chk.saw("generate_code", fn.qual)
+    cfg, rd = fn_ctx(fn)
+    keeps = [st for st in ast.walk(fn) if isinstance(st, ast.Assign) and len(st.targets) == 1 and isinstance(st.targets[0], ast.Attribute)
+             and st.targets[0].attr == "_is_intermediate" and isinstance(st.value, ast.Constant) and st.value.value is False]
+    if not keeps:
+        raise AnalysisError("handle_assign: the store that keeps a device-id register beyond its statement (<id>._is_intermediate = False) was not found")
+    lists = _lifetime_lists(repo)
+    for st in keeps:
+        reg = norm(st.targets[0].value)
+        ids_s = live_ids(cfg, st)
+        if not ids_s:
+            continue
+        gs = {(norm(t_), p_) for t_, p_ in guard_atoms(cfg, ids_s[0])}
+        handed = []
+        for c in ast.walk(fn):
+            if isinstance(c, ast.Call) and isinstance(c.func, ast.Attribute) and c.func.attr in ("extend", "append", "update") and isinstance(c.func.value, ast.Attribute) \
+                    and norm(c.func.value.value) == reg and c.args and "nodes_reading" in norm(c.args[0]):
+                ids_c = live_ids(cfg, c)
+                if ids_c and {(norm(t_), p_) for t_, p_ in guard_atoms(cfg, ids_c[0])} == gs:
+                    # whose accesses?  the symbol of the assignment target
+                    recv = next((norm(a.value) for a in ast.walk(c.args[0]) if isinstance(a, ast.Attribute) and a.attr == "nodes_reading"), None)
+                    is_target = False
+                    if recv is not None:
+                        for a in ast.walk(c.args[0]):
+                            if isinstance(a, ast.Attribute) and a.attr == "nodes_reading" and isinstance(a.value, ast.Name):
+                                ds = rd.at(ids_c[0], a.value.id)
+                                is_target = bool(ds) and all(d.kind == "assign" and d.value is not None and "get_sym_data(target)" in norm(d.value) for d in ds)
+                    if is_target:
+                        handed.append(c.func.value.attr)
+        key = f"generate_code:{fn.qual}:the kept device-id register gets the accesses of the device name"
+        where = f"{g.path}:{st.lineno} in {fn.qual}"
+        if not handed:
+            chk.bad(R, key, f"{reg} is kept beyond its statement ({norm(st)}), but nothing records that the device name is read later: inside a function the register's "
+                            f"lifetime is the line of 'dev = Device(n + 1)', the next value takes it and 'dev.On = a' addresses another device", None, where)
+            continue
+        chk.judge(R, key, any(a in lists for a in handed),
+                  f"the accesses are recorded in {sorted(set(handed))}, which IC10Register.lifetime does not include ({sorted(lists)})", {"lists": sorted(lists)}, where)
+
+
+# ---------------------------------------------------------------------- R04.j
+def r04j(repo, chk, R="R04.j"):
+    g = repo.mod("generate_code")
+    t = repo.mod("types")
+    from .shared import GEN_CLASS, lifetime_leaves
+    cf = g.func(f"{GEN_CLASS}.compile_function")
+    chk.saw("generate_code", cf.qual)
+    cfg, rd = fn_ctx(cf)
+    node_param = cf.args.args[1].arg if len(cf.args.args) > 1 else None
+    # does the function's own symbol get a register?  <sym>.code_expr = <fresh register>, <sym> = get_sym_data(<the FunctionDef>)
+    gives = []
+    for st in ast.walk(cf):
+        if isinstance(st, ast.Assign) and len(st.targets) == 1 and isinstance(st.targets[0], ast.Attribute) and st.targets[0].attr == "code_expr" \
+                and isinstance(st.targets[0].value, ast.Name):
+            ids = live_ids(cfg, st)
+            ds = rd.at(ids[0], st.targets[0].value.id) if ids else []
+            if ds and all(d.kind == "assign" and d.value is not None and norm(d.value).endswith(f"get_sym_data({node_param})") for d in ds):
+                gives.append(st)
+    key = "types:IC10Register.lifetime:result register of a function inlined into another function"
+    if not gives:
+        chk.ok(R, key, {"note": "compile_function gives the function's own symbol no register"}, vacuous=True)
+        return
+    lf = t.func("IC10Register.lifetime")
+    chk.saw("types", "IC10Register.lifetime")
+    lcfg, lrd = fn_ctx(lf)
+    where = f"{t.path}:{lf.lineno} in IC10Register.lifetime"
+    stores = [(v, st) for v, st in lifetime_leaves(t, lf, lcfg, lrd) if isinstance(v, ast.Call) and norm(v.func) == "range" and v.args and "maxsize" in norm(v.args[-1])]
+    if not stores:
+        raise AnalysisError("IC10Register.lifetime: no unbounded lifetime found (see R04.e)")
+    # the unbounded store must be reachable for a writer that is a FunctionDef whose symbol is read inside a function:
+    # some test on the way mentions FunctionDef together with the scope of a reader
+    mentions = False
+    for v, st in stores:
+        p = st
+        tests = []
+        while p is not None and p is not lf:
+            par = getattr(p, "parent", None)
+            if isinstance(par, (ast.If, ast.While)):
+                tests.append(par.test)
+            p = par
+        # tests that define the values used in those tests (one level of locals)
+        for tst in list(tests):
+            for nm in ast.walk(tst):
+                if isinstance(nm, ast.Name):
+                    ids = live_ids(lcfg, tst)
+                    for d in (lrd.at(ids[0], nm.id) if ids else []):
+                        if d.kind == "assign" and d.value is not None:
+                            tests.extend(t_ for t_, _p in guard_atoms(lcfg, d.node))
+        txt = " ".join(norm(x) for x in tests)
+        if "FunctionDef" in txt and "nodes_reading" in txt and ".scope()" in txt:
+            mentions = True
+    chk.judge(R, key, mentions,
+              "compile_function puts the result of an inlined function into a register of the function's own symbol, which belongs to the scope of the 'def'; "
+              "IC10Register.lifetime gives it the line interval from 'def' to the call although the register is written whenever the calling function runs: "
+              "'def f(): ..', 'def g(): v = f() ..', 'db.Setting = g() + g()' keeps the first g() in the register that f's result overwrites during the second call",
+              {"stores": [norm(st_)[:60] for st_ in gives]}, where)
